@@ -226,6 +226,19 @@ class C10(core.Check):
             if problems:
                 what, idx, info = problems[0]
                 res.fail(**{'class': 'reconciliation/' + what, 'input': desc, 'observed': dict(info, strategy_index=idx)})
+            # an exit order never outlives its position: a reduce-only order is never executed on a flat position
+            posq = {}
+            pend = None
+            for e in tr.events:
+                if e[0] == 'FILL':
+                    pend = e
+                    od = next((x for x in tr.events if x[0] == 'SUBMIT' and x[1] == e[1]), None)
+                    if od is not None and od[8] and od[1] not in getattr(tr, 'liq_orders', set()) and posq.get(e[3], 0.0) == 0:
+                        res.fail(**{'class': 'reconciliation/exit-order-executed-on-flat-position', 'input': desc,
+                                    'observed': {'order': e[1], 'type': e[5], 'side': e[4], 'qty': e[6], 'price': e[7], 'time': e[2]}})
+                        break
+                elif e[0] == 'POS':
+                    posq[e[1]] = float(e[2])
             # routing of every submission against the current price at that moment
             for e in tr.events:
                 if e[0] != 'SUBMIT':
